@@ -218,16 +218,24 @@ pub struct MembersCase {
     pub skips: [Skip; 3],
     pub style: AttrStyle,
     pub renamed: bool,
+    /// the renamed members get wire names that differ only in case / separators (`in-progress`, `in_progress`, `inProgress`):
+    /// distinct to serde, but equal under most of the case conversions the backends apply to member names
+    pub near_homonyms: bool,
     pub lang: Lang,
+}
+
+fn wire_name(c: &MembersCase, i: usize) -> String {
+    if c.near_homonyms { ["in-progress", "in_progress", "inProgress"][i].to_string() } else { format!("rn{i}") }
 }
 
 pub fn gen_members(ch: &mut Chooser) -> MembersCase {
     let container = *ch.pick("container", &CONTAINERS);
     let skips = [*ch.pick("skip0", &SKIPS), *ch.pick("skip1", &SKIPS), *ch.pick("skip2", &SKIPS)];
     let style = *ch.pick("attr_style", &ATTR_STYLES);
-    let renamed = ch.flag("member_renamed");
+    let names = ch.choose("member_renamed", 3);
+    let (renamed, near_homonyms) = (names > 0, names == 2);
     let lang = *ch.pick("lang", &ALL_LANGS);
-    MembersCase { container, skips, style, renamed, lang }
+    MembersCase { container, skips, style, renamed, near_homonyms, lang }
 }
 
 fn member_fields(c: &MembersCase) -> Vec<Field> {
@@ -239,7 +247,7 @@ fn member_fields(c: &MembersCase) -> Vec<Field> {
             f.skip = c.skips[i];
             f.style = c.style;
             if c.renamed {
-                f.rename = Some(format!("rn{i}"));
+                f.rename = Some(wire_name(c, i));
             }
             f
         })
@@ -259,7 +267,7 @@ pub fn members_program(c: &MembersCase) -> File {
                     v.skip = c.skips[i];
                     v.style = c.style;
                     if c.renamed {
-                        v.rename = Some(format!("rn{i}"));
+                        v.rename = Some(wire_name(c, i));
                     }
                     v
                 })
@@ -281,7 +289,7 @@ pub fn members_program(c: &MembersCase) -> File {
                     v.skip = c.skips[i];
                     v.style = c.style;
                     if c.renamed {
-                        v.rename = Some(format!("rn{i}"));
+                        v.rename = Some(wire_name(c, i));
                     }
                     v
                 })
@@ -312,7 +320,7 @@ pub fn check_members(c: &MembersCase, choices: &[u32], acc: &mut Acc) {
         .filter(|i| !c.skips[*i].skipped())
         .map(|i| {
             if c.renamed {
-                format!("rn{i}")
+                wire_name(c, i)
             } else if c.container.ends_with("fields") {
                 format!("m{i}")
             } else {
@@ -354,12 +362,15 @@ pub fn check_members(c: &MembersCase, choices: &[u32], acc: &mut Acc) {
         return;
     };
     acc.outcomes.insert(report::fnv64(&format!("{}|{}", c.lang.name(), observed.len())));
-    if observed != expected {
+    // names that differ only in case / separators: several backends derive the same member identifier from them, so the
+    // output cannot be read back member by member (not a matter of this property); what can be judged is how many there are
+    let differs = if c.near_homonyms { observed.len() != expected.len() } else { observed != expected };
+    if differs {
         let mut sorted_o = observed.clone();
         let mut sorted_e = expected.clone();
         sorted_o.sort();
         sorted_e.sort();
-        let what = if sorted_o == sorted_e {
+        let what = if sorted_o == sorted_e && !c.near_homonyms {
             "order"
         } else if observed.len() > expected.len() {
             "skipped-member-generated-or-invented"
@@ -371,7 +382,7 @@ pub fn check_members(c: &MembersCase, choices: &[u32], acc: &mut Acc) {
         let spelling = if c.skips.contains(&Skip::Typeshare) && c.skips.contains(&Skip::Serde) { "both" } else if c.skips.contains(&Skip::Typeshare) { "typeshare" } else if c.skips.contains(&Skip::Serde) { "serde" } else { "none" };
         let mut d = base.clone();
         d["observed_members"] = json!(observed);
-        acc.vios.add(Violation { sig: format!("C03|{}|members|{}|{what}|skip_spelling={spelling}|renamed={}", c.lang.name(), c.container, c.renamed as u8), detail: d });
+        acc.vios.add(Violation { sig: format!("C03|{}|members|{}|{what}|skip_spelling={spelling}|renamed={}", c.lang.name(), c.container, c.renamed as u8 + c.near_homonyms as u8), detail: d });
     }
     if acc.samples.len() < 2 && expected.len() == 1 && c.renamed {
         acc.sample(json!({"lang": c.lang.name(), "container": c.container, "skip_pattern": pat, "source": ok.source, "observed_members": observed}));
@@ -761,7 +772,7 @@ pub fn run(args: &[String]) -> i32 {
             report::threads(),
             u64::MAX,
         );
-        merge(&mut rep, "members", accs, &stats, json!({"containers": CONTAINERS, "skip_patterns": 27, "skip_spellings": ["serde(skip)", "typeshare(skip)"], "attr_styles": 4, "member_renamed": [false, true], "languages": 6}));
+        merge(&mut rep, "members", accs, &stats, json!({"containers": CONTAINERS, "skip_patterns": 27, "skip_spellings": ["serde(skip)", "typeshare(skip)"], "attr_styles": 4, "member_renamed": ["no", "distinct names", "names that differ only in case or separators"], "languages": 6}));
     }
     {
         let (accs, stats) = explore(
